@@ -52,7 +52,9 @@ def sx_int(x=0, base=None):
                     v = 1
             norm.append(v)
         cells = norm
-    ws = tuple(w for w in (STR_WS if is_str else BYTES_WS) if w <= 0xFF)
+    # int(str): unicode spaces are whitespace, but not the ASCII separators 0x1c-0x1f (str.strip() treats those as
+    # whitespace, int() does not - found by the per-path concolic cross-check)
+    ws = tuple(w for w in (STR_WS if is_str else BYTES_WS) if w <= 0xFF and not (is_str and 28 <= w <= 31))
     I = SymSeq._cin
     R = SymSeq._crange
     a, b = 0, len(cells)
